@@ -287,8 +287,10 @@ func JudgeStep(st *Step, rep Reporter) Doc {
 		case ex.NewCas == 1 || (ex.NewCas == -1 && pre.Present && obsCas != pre.Cas):
 			if pre.Present && obsCas == pre.Cas {
 				rep(uniq("C01", "C04"), "post.cas.unchanged", fmt.Sprintf("%s on %s succeeded but the CAS did not change (%d)", o.Variant(), pre.Class(), obsCas))
-			} else if pre.Present && !pre.CasByMeta && obsCas < pre.Cas {
-				rep(uniq("C04", "C01"), "post.cas.backwards", fmt.Sprintf("%s on %s moved the CAS backwards %d -> %d", o.Variant(), pre.Class(), pre.Cas, obsCas))
+			} else if pre.Present && obsCas < pre.Cas {
+				// also when the earlier version was stamped by a WithMeta write (a replicated document whose CAS is ahead
+				// of the local clock): "a later write to a key always carries a larger CAS than an earlier one"
+				rep(uniq("C04", "C01"), "post.cas.backwards", fmt.Sprintf("%s on %s moved the CAS backwards %d -> %d%s", o.Variant(), pre.Class(), pre.Cas, obsCas, ifs(pre.CasByMeta, " (the earlier version carried a caller-supplied CAS)", "")))
 			}
 			if res.HasCas && res.CasOut != obsCas {
 				rep(uniq("C01"), "post.cas.returned", fmt.Sprintf("%s returned CAS %d but %d is stored", o.Variant(), res.CasOut, obsCas))
